@@ -49,6 +49,16 @@ RESERVED = {"select", "from", "table", "order", "group", "by", "as", "in", "is",
             "index", "exclude", "replace", "recursive", "returning", "within", "variable", "variables", "e", "n", "r", "b", "u"}
 
 
+NONASCII = "éüñøåç"   # cased letters whose upper case is one letter too (no ß, no dotless i)
+
+
+def gen_unquoted_unicode(rnd) -> str:
+    """an unquoted identifier with non-ASCII cased letters (twin scripts: folding must treat é/É like e/E)"""
+    base = gen_unquoted(rnd)
+    pos = rnd.randrange(1, len(base) + 1)
+    return base[:pos] + rnd.choice(NONASCII) + base[pos:] + (rnd.choice(NONASCII) if rnd.random() < 0.5 else "")
+
+
 def gen_unquoted(rnd) -> str:
     while True:
         n = rnd.choice([1, 2, 3, 4, 6, 9])
@@ -104,6 +114,8 @@ def render(rnd, toks) -> str:
             out.append(t.spell(rnd))
         elif t[0] == "I":   # an object name that may also be written IDENTIFIER('<name>') (unquoted names, one-part references)
             out.append(f"{recase(rnd, 'identifier')}('{recase(rnd, t[1].text)}')" if not t[1].quoted and rnd.random() < 0.4 else t[1].spell(rnd))
+        elif t[0] == "Qn":   # scope position of a SHOW / DESCRIBE: quoted upper-case form or any-case unquoted form, 50/50
+            out.append('"' + t[1].text.upper() + '"' if rnd.random() < 0.5 else recase(rnd, t[1].text))
         elif t[0] == "k":
             out.append(recase(rnd, t[1]))
         elif t[0] == "v":
@@ -121,6 +133,10 @@ def I(i):
     return ("I", i)
 
 
+def Qn(name):
+    return ("Qn", Id(name, False))
+
+
 def x(s):
     return ("x", s)
 
@@ -133,7 +149,8 @@ class Script:
     def __init__(self, rnd):
         self.rnd = rnd
         r = rnd
-        mk = lambda: Id(gen_quoted(r), True) if r.random() < 0.25 else Id(gen_unquoted(r), False)  # noqa: E731
+        mk = lambda: (Id(gen_quoted(r), True) if r.random() < 0.25 else  # noqa: E731
+                      Id(gen_unquoted_unicode(r), False) if r.random() < 0.3 else Id(gen_unquoted(r), False))
         self.tabs = [mk(), mk()]
         while self.tabs[1].norm_py.upper() == self.tabs[0].norm_py.upper():
             self.tabs[1] = mk()
@@ -158,7 +175,7 @@ class Script:
         t0, t1 = self.tabs
         a, b, c = self.cols
         out = [
-            [k("create table"), t0, x("("), a, k("int"), x(","), b, k("varchar"), x(","), c, k("int"), x(")")],
+            [k("create table"), t0, x("("), a, k("int primary key"), x(","), b, k("varchar"), x(","), c, k("int"), x(")")],
             [k("insert into"), t0, x("("), a, x(","), b, x(","), c, x(")"), k("values"), x("(1, 'Xy', 10), (2, 'zW', 20), (3, NULL, 30)")],
             [k("create table"), t1, x("("), a, k("int"), x(","), b, k("varchar"), x(")")],
             [k("insert into"), t1, k("values"), x("(2, 'new'), (4, 'four')")],
@@ -210,6 +227,22 @@ class Script:
             lambda: [k("show schemas")],
             lambda: [k("show terse objects in"), Id("db1", False), x("."), Id("s1", False)],
             lambda: [k("show primary keys")],
+            # every scope position of SHOW / DESCRIBE with quoted and unquoted spellings of the scope names
+            lambda: [k("show schemas in database"), Qn("db1")],
+            lambda: [k("show schemas in"), Qn("db1")],
+            lambda: [k("show terse schemas in database"), Qn("db1")],
+            lambda: [k("show tables in database"), Qn("db1")],
+            lambda: [k("show tables in schema"), Qn("db1"), x("."), Qn("s1")],
+            lambda: [k("show tables in"), Qn("db1"), x("."), Qn("s1")],
+            lambda: [k("show terse tables in schema"), Qn("s1")],
+            lambda: [k("show objects in schema"), Qn("db1"), x("."), Qn("s1")],
+            lambda: [k("show objects in database"), Qn("db1")],
+            lambda: [k("show primary keys in schema"), Qn("db1"), x("."), Qn("s1")],
+            lambda: [k("show primary keys in schema"), Qn("s1")],
+            lambda: [k("show primary keys in table"), t0],
+            lambda: [k("describe table"), Qn("db1"), x("."), Qn("s1"), x("."), t0],
+            lambda: [k("use schema"), Qn("db1"), x("."), Qn("s1")],
+            lambda: [k("use database"), Qn("db1")],
             lambda: [k("select"), k("table_name"), x(","), k("table_type"), k("from"), k("information_schema"), x("."), k("tables"), k("where"), k("table_schema"), x("= 'S1'"), k("order by"), x("1")],
             lambda: [k("select"), k("column_name"), x(","), k("data_type"), k("from"), k("information_schema"), x("."), k("columns"), k("where"), k("table_name"), x("= '" + t0.norm_py.replace("'", "''") + "'"), k("order by"), k("ordinal_position")],
             lambda: [k("set"), k(self.var.text), x("="), x(str(r.randint(1, 9)))],
@@ -308,10 +341,10 @@ def _canon_cell(v):
     return v
 
 
-def _outcome(conn, sql: str, dict_cursor: bool = False) -> dict:
+def _outcome(conn, sql: str, dict_cursor: bool = False, cur=None) -> dict:
     import snowflake.connector.errors as E
     from snowflake.connector.cursor import DictCursor
-    cur = conn.cursor(DictCursor) if dict_cursor else conn.cursor()
+    cur = cur or (conn.cursor(DictCursor) if dict_cursor else conn.cursor())
     try:
         cur.execute(sql)
     except E.Error as e:
@@ -338,8 +371,10 @@ def run_script(sqls: list[str]) -> list[dict]:
     import fakesnow
     import snowflake.connector
     with fakesnow.patch():
+        from snowflake.connector.cursor import DictCursor
         conn = snowflake.connector.connect(database="db1", schema="s1")
-        return [_outcome(conn, s, dict_cursor=(i % 5 == 4)) for i, s in enumerate(sqls)]
+        tc, dc = conn.cursor(), conn.cursor(DictCursor)   # the script's statements share one long-lived cursor of each kind
+        return [_outcome(conn, s, dict_cursor=(i % 5 == 4), cur=(dc if i % 5 == 4 else tc)) for i, s in enumerate(sqls)]
 
 
 def gen_names_case(rnd) -> dict:
@@ -357,7 +392,9 @@ def gen_names_case(rnd) -> dict:
     ids["conn_db"] = Id(gen_unquoted(rnd), False)
     ids["conn_schema"] = Id(gen_unquoted(rnd), False)
     spell = {n: (recase(rnd, i.text) if not i.quoted else '"' + i.text + '"') for n, i in ids.items()}
-    return {"kind": "names", "ids": {n: [i.text, i.quoted] for n, i in ids.items()}, "spell": spell,
+    pa = "q" + "".join(rnd.choice(string.ascii_letters) for _ in range(rnd.randint(2, 6))) + "x"
+    pb = pa.swapcase() if rnd.random() < 0.5 else pa.upper()
+    return {"kind": "names", "pair": [pa, pb], "ids": {n: [i.text, i.quoted] for n, i in ids.items()}, "spell": spell,
             "respell": {n: (recase(rnd, i.text) if not i.quoted else '"' + i.text + '"') for n, i in ids.items()}}
 
 
@@ -388,6 +425,21 @@ def run_names(case: dict) -> dict:
             cur = ex(conn, f"select * from {rs['t']}")
             obs["star_desc"] = [d.name for d in cur.description]
             obs["describe"] = [r[0] for r in ex(conn, f"describe table {rs['t']}").fetchall()]
+            obs["show_schemas_quoted_scope"] = [r[1] for r in ex(conn, f'show schemas in database "{conn.database}"').fetchall() if str(r[1]).lower() != "information_schema"]
+            obs["show_tables_quoted_scope"] = [r[1] for r in ex(conn, f'show tables in schema "{conn.database}"."{conn.schema}"').fetchall()]
+            lc = conn.cursor()   # one long-lived cursor: statement pairs that differ only in the case of a QUOTED identifier
+            qa, qb = case["pair"]
+            lc.execute(f'select 1 as "{qa}"')
+            obs["pair_select_1"] = [d.name for d in lc.description]
+            lc.execute(f'SELECT 1 AS "{qb}"')
+            obs["pair_select_2"] = [d.name for d in lc.description]
+            lc.execute(f'create table "{qa}" (a int)')
+            obs["pair_create_1"] = lc.fetchall()[0][0]
+            lc.execute(f'drop table "{qa}"')
+            lc.execute(f'CREATE TABLE "{qb}" (A INT)')
+            obs["pair_create_2"] = lc.fetchall()[0][0]
+            lc.execute(f'DROP TABLE "{qb}"')
+            obs["pair_drop_2"] = lc.fetchall()[0][0]
             obs["show_pk_table"] = [[r[3], r[4]] for r in ex(conn, f"show primary keys in table {rs['t']}").fetchall()]
             obs["show_pk_schema"] = [[r[2], r[3], r[4]] for r in ex(conn, f"show primary keys in schema {conn.database}.{conn.schema}").fetchall()]
             obs["info_tables"] = [r[0] for r in ex(conn, f"select table_name from information_schema.tables where table_schema = '{conn.schema}' and table_name = '{lit('t')}'").fetchall()]
@@ -577,6 +629,11 @@ def _check_names(chk, case, real, reply) -> None:
         "dict_keys": [N["c1"], N["al"]],
         "star_desc": [N["c1"], N["c2"], N["c3"]],
         "describe": [N["c1"], N["c2"], N["c3"]],
+        "show_schemas_quoted_scope": [N["conn_schema"]],
+        "show_tables_quoted_scope": [N["t"]],
+        "pair_select_1": [case["pair"][0]], "pair_select_2": [case["pair"][1]],
+        "pair_create_1": f"Table {case['pair'][0]} successfully created.", "pair_create_2": f"Table {case['pair'][1]} successfully created.",
+        "pair_drop_2": f"{case['pair'][1]} successfully dropped.",
         "show_pk_table": [[N["t"], N["c1"]]],
         "show_pk_schema": [[N["conn_schema"], N["t"], N["c1"]]],
         "info_tables": [N["t"]],
